@@ -352,8 +352,8 @@ def run_batch(ctx):
     fresh = {}
     names = sorted(CONFIGS)
     for i in range(N_HIST[ctx.tier]):
-        if not ctx.time_left():
-            ctx.count('stopped-on-time-budget')
+        if not ctx.time_left(0.45):           # the rest belongs to the thread schedules
+            ctx.count('histories-stopped-on-their-share-of-the-time-budget')
             break
         for name in names:
             c = CONFIGS[name]
@@ -364,6 +364,7 @@ def run_batch(ctx):
     seen = set()
     base = ctx.seed * 1000003 + ctx.batch * 10007
     broad = ctx.batch % 4 == 3          # every fourth worker instruments all runtime modules of lark
+    name = tops = p = None
     for i in range(N_SCHED[ctx.tier] // (3 if broad else 1)):
         if not ctx.time_left():
             ctx.count('stopped-on-time-budget')
